@@ -124,6 +124,9 @@ pub trait NamingContext {
     fn compute_function_name(&self, name: &str, _rename_all: &Option<RenameRule>) -> String {
         // Always use TypeScript conventions (camelCase for functions)
         // Command-level rename_all doesn't affect the function name
+        // A command written `fn r#type()` is still invoked as such, but the raw-identifier
+        // prefix is Rust syntax and cannot be part of the TypeScript identifier
+        let name = name.strip_prefix("r#").unwrap_or(name);
         let function_name = self.apply_naming_convention(name, RenameRule::CamelCase);
 
         // `delete`, `new`, `default`, ... are legal Rust function names but cannot name a
@@ -142,6 +145,7 @@ pub trait NamingContext {
     fn compute_type_name(&self, name: &str, _rename_all: &Option<RenameRule>) -> String {
         // Always use TypeScript conventions (PascalCase for types)
         // Command-level rename_all doesn't affect the type name
+        let name = name.strip_prefix("r#").unwrap_or(name);
         self.apply_naming_convention(name, RenameRule::PascalCase)
     }
 }
